@@ -25,6 +25,9 @@ theorem qc_exhaust_good (e r x : Nat) :
 /-- … and it is evaluated before the first `select` -/
 theorem qc_preCheck_good : Generated.qc_preCheck = true := by decide
 
+/-- … and its exhaustion branch reports the context's error when the context has ended (`incompleteCause`) -/
+theorem qc_ctxCause_good : Generated.qc_ctxCause = true := by decide
+
 theorem async_exhaust_good (e r x : Nat) :
     ev (envLoop e r x) Generated.async_exhaust = .bool (decide (e + r = x)) := by
   simp [Generated.async_exhaust, ev, envLoop, envOf, veq, varith, vcmp, vnot]
@@ -32,21 +35,25 @@ theorem async_exhaust_good (e r x : Nat) :
 
 theorem async_preCheck_good : Generated.async_preCheck = true := by decide
 
+theorem async_ctxCause_good : Generated.async_ctxCause = true := by decide
+
 /-- the parameters of the tree -/
 def P_qc : Params :=
   { exhausted := fun e r x => ev (envLoop e r x) Generated.qc_exhaust == .bool true
-    preCheck := Generated.qc_preCheck }
+    preCheck := Generated.qc_preCheck
+    ctxCause := Generated.qc_ctxCause }
 def P_async : Params :=
   { exhausted := fun e r x => ev (envLoop e r x) Generated.async_exhaust == .bool true
-    preCheck := Generated.async_preCheck }
+    preCheck := Generated.async_preCheck
+    ctxCause := Generated.async_ctxCause }
 
 theorem P_qc_good : P_qc.Good := by
-  refine ⟨fun e r x => ?_, qc_preCheck_good⟩
+  refine ⟨fun e r x => ?_, qc_preCheck_good, qc_ctxCause_good⟩
   simp only [P_qc, qc_exhaust_good]
   by_cases h : e + r = x <;> simp [h]
 
 theorem P_async_good : P_async.Good := by
-  refine ⟨fun e r x => ?_, async_preCheck_good⟩
+  refine ⟨fun e r x => ?_, async_preCheck_good, async_ctxCause_good⟩
   simp only [P_async, async_exhaust_good]
   by_cases h : e + r = x <;> simp [h]
 
@@ -59,12 +66,30 @@ theorem tree_qc_accounting (qf : RepMap M → R × Bool) (x : Nat) (as : List (A
     (h : (run P_qc qf x as).1 = .incomplete errs n) : errs.length + n = x :=
   C02.incomplete_accounting _ P_qc_good _ _ _ _ _ h
 theorem tree_qc_zero (qf : RepMap M → R × Bool) (as : List (Arrival M E)) :
-    (run P_qc qf 0 as).1 = .incomplete [] 0 := C02.zero_targets _ P_qc_good _ _
+    (run P_qc qf 0 as).1 = (match as with | .ctxDone c :: _ => .ctxErr c [] 0 | _ => .incomplete [] 0) :=
+  C02.zero_targets _ P_qc_good _ _
+theorem tree_qc_zero_not_waiting (qf : RepMap M → R × Bool) (as : List (Arrival M E)) :
+    (run P_qc qf 0 as).1 ≠ .waiting := C02.zero_targets_not_waiting _ P_qc_good _ _
+theorem tree_qc_exhaustion (qf : RepMap M → R × Bool) (x : Nat) (pre post : List (Arrival M E)) errs n
+    (hpre : ∀ p ∈ prefixes pre, p ≠ pre → C02.verdict P_qc qf x p = none)
+    (hv : C02.verdict P_qc qf x pre = some (.incomplete errs n)) :
+    (run P_qc qf x (pre ++ post)).1 =
+      (match post with | .ctxDone c :: _ => .ctxErr c errs n | _ => .incomplete errs n) :=
+  C02.exhaustion_outcome _ P_qc_good _ _ _ _ _ _ hpre hv
 theorem tree_async_accounting (qf : RepMap M → R × Bool) (x : Nat) (as : List (Arrival M E)) errs n
     (h : (run P_async qf x as).1 = .incomplete errs n) : errs.length + n = x :=
   C02.incomplete_accounting _ P_async_good _ _ _ _ _ h
 theorem tree_async_zero (qf : RepMap M → R × Bool) (as : List (Arrival M E)) :
-    (run P_async qf 0 as).1 = .incomplete [] 0 := C02.zero_targets _ P_async_good _ _
+    (run P_async qf 0 as).1 = (match as with | .ctxDone c :: _ => .ctxErr c [] 0 | _ => .incomplete [] 0) :=
+  C02.zero_targets _ P_async_good _ _
+theorem tree_async_zero_not_waiting (qf : RepMap M → R × Bool) (as : List (Arrival M E)) :
+    (run P_async qf 0 as).1 ≠ .waiting := C02.zero_targets_not_waiting _ P_async_good _ _
+theorem tree_async_exhaustion (qf : RepMap M → R × Bool) (x : Nat) (pre post : List (Arrival M E)) errs n
+    (hpre : ∀ p ∈ prefixes pre, p ≠ pre → C02.verdict P_async qf x p = none)
+    (hv : C02.verdict P_async qf x pre = some (.incomplete errs n)) :
+    (run P_async qf x (pre ++ post)).1 =
+      (match post with | .ctxDone c :: _ => .ctxErr c errs n | _ => .incomplete errs n) :=
+  C02.exhaustion_outcome _ P_async_good _ _ _ _ _ _ hpre hv
 
 /-! `QuorumCallError.Is` -/
 
@@ -88,24 +113,33 @@ section Audit
 open GorumsV.Tie.C02 GorumsV.C02
 #print axioms qc_exhaust_good
 #print axioms qc_preCheck_good
+#print axioms qc_ctxCause_good
 #print axioms async_exhaust_good
 #print axioms async_preCheck_good
+#print axioms async_ctxCause_good
 #print axioms P_qc_good
 #print axioms P_async_good
 #print axioms qce_is_good
 #print axioms tree_qc_spec
 #print axioms tree_qc_accounting
 #print axioms tree_qc_zero
+#print axioms tree_qc_zero_not_waiting
+#print axioms tree_qc_exhaustion
 #print axioms tree_async_accounting
 #print axioms tree_async_zero
+#print axioms tree_async_zero_not_waiting
+#print axioms tree_async_exhaustion
 #print axioms run_eq_spec
 #print axioms verdict_none_iff
 #print axioms verdict_ne_waiting
 #print axioms waiting_iff
 #print axioms incomplete_accounting
 #print axioms zero_targets
+#print axioms zero_targets_not_waiting
 #print axioms zero_targets_needs_precheck
 #print axioms ctx_outcome
+#print axioms exhaustion_outcome
+#print axioms exhaustion_needs_ctxCause
 #print axioms ok_outcome
 #print axioms async_same_as_sync
 #print axioms async_done_iff
